@@ -73,15 +73,14 @@ def tag_text(a):
 
 
 def k1(case):
-    """empty diff for unequal values where a set member string of one side spells the
-    DeepHash serialisation of a non-string set member of the other side"""
+    """empty diff for unequal values where a set member string spells the DeepHash
+    serialisation of a non-string set member (of either side)"""
     if case.get("clause") != "empty diff but t1 != t2":
         return False
     t1, t2 = eval(case["t1"]), eval(case["t2"])
-    m1, m2 = _set_members(t1, []), _set_members(t2, [])
-    tags1 = {tag_text(x) for x in m1} - {None}
-    tags2 = {tag_text(x) for x in m2} - {None}
-    return any(isinstance(x, str) and x in tags2 for x in m1) or any(isinstance(x, str) and x in tags1 for x in m2)
+    members = _set_members(t1, []) + _set_members(t2, [])
+    tags = {tag_text(x) for x in members} - {None}
+    return any(isinstance(x, str) and x in tags for x in members)
 
 
 MATCHERS = {"K1": k1}
